@@ -4,6 +4,7 @@
 
 pub mod gen;
 pub mod oracle;
+pub mod probe;
 pub mod serde_drv;
 pub mod sym;
 #[cfg(kani)]
